@@ -520,6 +520,19 @@ class Facts:
         self.consts = {c['path']: c for c in self.j['consts']}
         self._callers = None
 
+    def listed(self, fn, table):
+        """is `fn` covered by the who-may registry `table` (a set/dict of reviewed function paths)?  When a listed function
+        was dissolved into its callers by hand (it no longer exists and has no successor), its reviewed callers inherit
+        the entry - the code is the same, it only lives one level up now."""
+        if fn in table:
+            return True
+        lost = set(self.normalisation.get('missing_reviewed', []))
+        if not lost:
+            return False
+        import normalize
+        A = normalize.audit().get('functions', {})
+        return any(t in lost and fn in A.get(t, {}).get('callers', []) for t in table)
+
     def body(self, path, required=True):
         b = self.bodies.get(path)
         if b is None and required:
